@@ -5,6 +5,7 @@ import GFS.Model.Uploader
 import GFS.Model.Upload
 import GFS.Model.UploadPart
 import GFS.Model.FrontMp
+import GFS.Model.FsTree
 import GFS.Spec.Multipart
 import GFS.Spec.S3
 import GFS.Spec.Listing
@@ -27,6 +28,7 @@ structure DState where
   ucfg  : UploadCfg := {}
   pend  : List (Nat × Bytes × Bytes × Meta) := []     -- uploads between their steps: tid ↦ (bucket, key, metadata as merged so far)
   mspec : List Spec.Multipart.Upload := []
+  fst   : SMap GFS.Model.Fs.Tree := []          -- the fs backends' directory trees, per bucket
 
 def optNat (o : Option Nat) : String := match o with | some n => toString n | none => "-"
 
@@ -219,7 +221,49 @@ def vspecStep (st : DState) (toks : List String) (o : Out) (nextVerBefore : Nat)
 def stepState0 (st : DState) (toks : List String) : Option (DState × Out × String × String) :=
   let md5 := Md5.md5
   match toks with
-  | ["reset"] => some ({ st with mem := Mem.empty, spec := [], vspec := [], upl := Upl.empty, mspec := [] }, Out.ok, "ok", "-")
+  | ["reset"] => some ({ st with mem := Mem.empty, spec := [], vspec := [], upl := Upl.empty, mspec := [], fst := [] }, Out.ok, "ok", "-")
+  | ["fsmk", b] =>
+    (match SMap.find st.fst (fromHex b) with
+     | some _ => some (st, Out.ok, "exists", "-")
+     | none => some ({ st with fst := SMap.insert st.fst (fromHex b) GFS.Model.Fs.Tree.empty }, Out.ok, "ok", "-"))
+  | ["fsrm", b] => some ({ st with fst := SMap.erase st.fst (fromHex b) }, Out.ok, "ok", "-")
+  | ["fsput", b, k, body] =>
+    (match SMap.find st.fst (fromHex b) with
+     | none => some (st, Out.ok, "nobucket", "-")
+     | some t =>
+       match GFS.Model.Fs.putKey t (fromHex k) (fromHex body) with
+       | none => some (st, Out.ok, "refused", "-")
+       | some t' => some ({ st with fst := SMap.insert st.fst (fromHex b) t' }, Out.ok, "ok", "-"))
+  | ["fscheck", b, k] =>
+    -- would the model accept an upload to this key (no state change)
+    (match SMap.find st.fst (fromHex b) with
+     | none => some (st, Out.ok, "nobucket", "-")
+     | some t =>
+       match GFS.Model.Fs.putKey t (fromHex k) [] with
+       | none => some (st, Out.ok, "refused", "-")
+       | some _ => some (st, Out.ok, "ok", "-"))
+  | ["fsdel", b, k] =>
+    (match SMap.find st.fst (fromHex b) with
+     | none => some (st, Out.ok, "nobucket", "-")
+     | some t =>
+       match GFS.Model.Fs.deleteKey t (fromHex k) with
+       | none => some (st, Out.ok, "refused", "-")
+       | some t' => some ({ st with fst := SMap.insert st.fst (fromHex b) t' }, Out.ok, "ok", "-"))
+  | ["fsget", b, k] =>
+    (match SMap.find st.fst (fromHex b) with
+     | none => some (st, Out.ok, "nobucket", "-")
+     | some t =>
+       match GFS.Model.Fs.getKey t (fromHex k) with
+       | none => some (st, Out.ok, "none", "-")
+       | some body => some (st, Out.ok, "obj " ++ toHex body, "-"))
+  | ["fstree", b] =>
+    (match SMap.find st.fst (fromHex b) with
+     | none => some (st, Out.ok, "nobucket", "-")
+     | some t =>
+       let ds := t.dirs.map fun d => toHex (Bytes.join1 47 d)
+       let fs := t.files.map fun f => toHex (Bytes.join1 47 f.1) ++ ":" ++ toString f.2.length
+       let j (xs : List String) : String := if xs.isEmpty then "-" else ",".intercalate xs
+       some (st, Out.ok, "tree D=" ++ j ds ++ " F=" ++ j fs, "-"))
   | ["cfg", backend, auto, failpage, novers] =>
     let versioned := backend == "mem" && novers != "1"
     let pag := backend == "mem"
